@@ -731,8 +731,19 @@ func (r *relayRig) judge() {
 				}
 			}
 			wantXFF := strings.Join(append(prior, q.srcIP), ", ")
-			if xff := strings.Join(got["X-Forwarded-For"], "|"); xff != wantXFF && !r.transparent {
+			if xff := strings.Join(got["X-Forwarded-For"], "|"); xff != wantXFF {
 				c.Violate("C04/x-forwarded-for", fmt.Sprintf("prior=%d", len(prior)), "request %d from %s with prior %q: backend received X-Forwarded-For %q, want %q", q.id, q.srcIP, prior, xff, wantXFF)
+			}
+			// the transparent preset passes the client's Host, address and scheme on
+			if r.transparent {
+				for _, t := range [][2]string{{"Host", "r.test"}, {"X-Real-Ip", q.srcIP}, {"X-Forwarded-Proto", "http"}} {
+					if v := strings.Join(got[t[0]], "|"); v != t[1] {
+						c.Violate("C04/transparent-header", t[0], "request %d: transparent preset: backend received %s %q, want %q", q.id, t[0], v, t[1])
+					}
+				}
+				c.Probe("transparent-checked")
+			} else if v := strings.Join(got["Host"], "|"); v != "10.7.0.1:80" && v != "10.7.0.1" {
+				c.Violate("C04/host-header", "", "request %d: backend received Host %q, want the upstream's address", q.id, v)
 			}
 			// anything else the backend saw must be explainable
 			allowed := map[string]bool{"Connection": true, "Host": true, "User-Agent": true, "Accept-Encoding": true, "Content-Length": true, "Transfer-Encoding": true, "X-Forwarded-For": true}
